@@ -39,3 +39,6 @@ def run(rep: Report, repo: Repo, tier: str) -> None:
     # subdirectory match must work (directory patterns need the trailing separator)
     with rep.isolated():
         fsrules.rule_match_sites(rep, repo, "C14-R10")
+    # "no toctree entry lacks a generated target": a listed sub-directory is one the walk enters
+    with rep.isolated():
+        fsrules.rule_symlinked_subdirs(rep, repo, "C14-R11")
